@@ -34,6 +34,19 @@ def wiring(prog, rep):
                 if len(cc) != 1:
                     bad.append('the core parser is called %d times on a path' % len(cc))
                     continue
+                # the token stream is exactly split(input).peekable(): no adaptor may drop, merge or reorder subtags
+                itv = iterator_value(e, s, cc[0][2][0])
+                if itv is None:
+                    bad.append('INCONCLUSIVE(the iterator handed to the parser is not traced to its construction)')
+                else:
+                    shape_ok = itv[0] == 'pure' and itv[1].split('::')[-1] == 'peekable' and len(itv[2]) == 1 and itv[2][0][0] == 'pure' \
+                        and re.search(r'slice::<impl \[T\]>::split$', itv[2][0][1]) is not None
+                    if not shape_ok:
+                        bad.append('the token stream is not split(input).peekable(): %s' % e.short(itv, 160))
+                    else:
+                        ap = terms.access_path(itv[2][0][2][0])
+                        if not (ap and ap[0] == 1 and terms.strip_some(ap[1]) == ()):
+                            bad.append('the split is not applied to the whole input')
                 if cc[0][2][1] != ('int', flag):
                     bad.append('core parser called with allow_extension = %s (expected the constant %s)' % (e.short(cc[0][2][1]), bool(flag)))
                 core_tag = [v for k, v in s.state.facts.items() if k[0] == 'tag' and k[1][0] == 'call' and k[1][1] in core]
@@ -81,6 +94,30 @@ def wiring(prog, rep):
                    '%s runs the shared core parser with allow_extension = %s%s' % (label, bool(flag), ', then the extension parser on the same iterator' if flag else ' and returns its result'),
                    not bad and segs, detail='\n'.join(sorted(set(bad))[:5]), how='%d paths' % len(segs))
     return core, disp
+
+
+def iterator_value(e, s, arg):
+    """value the iterator local had when it was created (the 'def' event of the local behind `&mut iter`, following moves)"""
+    if arg[0] != 'ref' or arg[1][0] != 'L':
+        return None
+    want = arg[1]
+    val = None
+    for ev in s.state.events:
+        if ev[0] == 'def' and ev[1] == want:
+            val = ev[2]
+            break
+    if val is None:
+        # initialised by a move from the call's destination temporary: the current value without later havoc
+        try:
+            val = e.read(s.state, want)
+        except Exception:
+            return None
+    for _ in range(6):
+        if val[0] == 'mut':
+            val = val[1]
+        else:
+            break
+    return val
 
 
 def allow_extension_once(prog, rep, core):
